@@ -95,14 +95,22 @@ def run(tier, v):
     }
     # near-collisions: connections whose 4-tuples differ in exactly one component (the flow tables must key on all four)
     base = dict(cip=(10, 70, 0, 1), sip=(10, 60, 0, 9), cp=40000)
-    variants = {"": {}, "_dport": {"port_alt": True}, "_cport": {"cp": 40001}, "_sip": {"sip": (10, 60, 0, 10)}, "_cip": {"cip": (10, 70, 0, 2)}}
+    variants = {"": {}, "_dport": {"port_alt": True}, "_cport": {"cp": 40001}, "_sip": {"sip": (10, 60, 0, 10)}, "_cip": {"cip": (10, 70, 0, 2)},
+                # the same two hosts with the two port numbers exchanged, and the same port numbers with the two hosts exchanged
+                "_mirror": {"mirror": True}, "_swaphosts": {"cip": (10, 60, 0, 9), "sip": (10, 70, 0, 1)}}
     for k, (suffix, ch) in enumerate(variants.items()):
         kw = dict(base)
-        kw.update({a: b for a, b in ch.items() if a != "port_alt"})
+        kw.update({a: b for a, b in ch.items() if a not in ("port_alt", "mirror")})
         alt = ch.get("port_alt", False)
+        mir = ch.get("mirror", False)
         Hn = c10.hello("nc%s.example" % (suffix or "_base"))
         Rn = ("GET /nc%s HTTP/1.1\r\nHost: nc%s.example\r\nUser-Agent: ua-nc%s\r\n\r\n" % (suffix, suffix, suffix)).encode()
         Sn = ("HTTP/1.1 200 OK\r\nServer: srv-nc%s\r\n\r\nok" % suffix).encode()
+        if mir:
+            lib["nc_tls" + suffix] = tcp_conn(20 + k, two(Hn, 35 + k), port=40000, **dict(kw, cp=443))
+            lib["nc_h1" + suffix] = tcp_conn(30 + k, two(Rn, 20 + k), port=40000, resp=Sn, **dict(kw, cp=80))
+            lib["nc_tcp" + suffix] = tcp_conn(40 + k, [b""], port=40000, syn_opts=True, **dict(kw, cp=80))
+            continue
         lib["nc_tls" + suffix] = tcp_conn(20 + k, two(Hn, 35 + k), port=8443 if alt else 443, **kw)
         lib["nc_h1" + suffix] = tcp_conn(30 + k, two(Rn, 20 + k), port=8080 if alt else 80, resp=Sn, **kw)
         lib["nc_tcp" + suffix] = tcp_conn(40 + k, [b""], port=8080 if alt else 80, syn_opts=True, **kw)
@@ -129,9 +137,9 @@ def run(tier, v):
     sets = {
         "http": [("h2_ins_ref", "h2_bare_ref"), ("h2_zero", "h2_legit"), ("h2_ins_ref", "h2_legit"), ("h1", "h2_bare_ref"), ("h2_bare_ref", "h2_ins_ref", "h2_zero"), ("h1", "h2_zero", "h2_legit"),
                  ("h2_zero_fail", "h2_legit"), ("h2_ins_fail", "h2_bare_ref"), ("h2_zero_fail", "h2_ins_ref", "h2_ins_fail")]
-                + [("nc_h1", "nc_h1" + x) for x in ("_dport", "_cport", "_sip", "_cip")],
-        "tls": [("tls_a", "tls_b"), ("tls_a", "h1"), ("tls_a", "tls_b", "h2_legit")] + [("nc_tls", "nc_tls" + x) for x in ("_dport", "_cport", "_sip", "_cip")],
-        "tcp": [("tcp_a", "tcp_b"), ("tcp_a", "h1"), ("tcp_a", "tls_a", "tcp_b")] + [("nc_tcp", "nc_tcp" + x) for x in ("_dport", "_cport", "_sip", "_cip")],
+                + [("nc_h1", "nc_h1" + x) for x in ("_dport", "_cport", "_sip", "_cip", "_mirror", "_swaphosts")],
+        "tls": [("tls_a", "tls_b"), ("tls_a", "h1"), ("tls_a", "tls_b", "h2_legit")] + [("nc_tls", "nc_tls" + x) for x in ("_dport", "_cport", "_sip", "_cip", "_mirror", "_swaphosts")],
+        "tcp": [("tcp_a", "tcp_b"), ("tcp_a", "h1"), ("tcp_a", "tls_a", "tcp_b")] + [("nc_tcp", "nc_tcp" + x) for x in ("_dport", "_cport", "_sip", "_cip", "_mirror", "_swaphosts")],
         "uni": [("tcp_a", "tls_a", "h2_ins_ref"), ("h2_ins_ref", "h2_bare_ref"), ("h1", "tls_b", "h2_zero"), ("h2_zero", "h2_legit"), ("h2_zero_fail", "h2_legit"), ("h2_ins_fail", "h2_bare_ref"), ("nc_tls", "nc_tls_dport"), ("nc_h1", "nc_h1_cport"), ("nc_tls", "nc_h1_sip")],
     }
     cap = 4000 if tier == "thorough" else 150
